@@ -826,6 +826,13 @@ class Builtins:
         I = self.interp
         if name == "type":
             return self.call_builtin("type", args, kwargs, st, k)
+        if name == "bool" and len(args) == 1:
+            hk = getattr(cx, "bool_hook", None)
+            if hk is not None:
+                r = hk(I, args[0], st, k)
+                if r is not None:
+                    return r
+            return k(VBool(truth(cx, args[0], st)), st)
         if name == "slice":
             vs = list(args)
             if len(vs) == 1:
